@@ -94,6 +94,28 @@ static void work_rt(long lo, long hi, struct res *r, void *arg) {
     }
 }
 
+/* round trip of seeds that went through the password operation: every value of the mask byte that
+ * overlaps the 150-bit boundary x secrets; store must give the canonical image and load must accept it */
+static void work_crypted(long lo, long hi, struct res *r, void *arg) {
+    (void)arg;
+    for (long x = lo; x < hi; x++) {
+        unsigned mv = (unsigned)(x % 256); int si = (int)((x / 256) % 4); int twice = (int)(x / 1024);
+        rseed s; memset(&s, 0, sizeof s); for (int i = 0; i < 19; i++) s.secret[i] = (uint8_t)(si == 0 ? 0 : si == 1 ? 0xFF : 0x3C + 7 * i * si); s.secret[18] &= 0x3F; s.birthday = 400 + (unsigned)si; s.features = (unsigned)si & 7;
+        polyseed_enable_features(7);
+        polyseed_data *d = seed_via_create(&s); r->calls++; r->cases++;
+        if (!d) { res_viol(r, "c06:rt-create", "", "cannot create seed"); continue; }
+        for (int i = 0; i < 32; i++) E.mask[i] = (uint8_t)(0x6D * (i + 1) + mv); E.mask[18] = (uint8_t)mv;
+        rseed want = s; ref_crypt(&want, E.mask); polyseed_crypt(d, "pw"); r->calls++;
+        if (twice) { uint8_t m2[32]; for (int i = 0; i < 32; i++) m2[i] = (uint8_t)(0xC1 ^ (i * 5)); m2[18] = (uint8_t)(mv ^ 0xFF); memcpy(E.mask, m2, 32); ref_crypt(&want, m2); polyseed_crypt(d, "other"); r->calls++; }
+        uint8_t st[32], exp[32]; polyseed_store(d, st); polyseed_free(d); ref_storage(&want, exp); r->calls += 2;
+        r->digest ^= mix64((uint64_t)x + (7ull << 40), st[28] | st[30] << 8 | st[31] << 16);
+        char h[65], rep[100]; hex(st, 32, h); sprintf(rep, "case %s 7", h);
+        if (memcmp(st, exp, 32)) { res_viol(r, "c06:layout-crypted", rep, "store of a seed after the password operation (mask byte 18 = 0x%02x) is not the canonical image (byte 28 is 0x%02x, expected 0x%02x)", mv, st[28], exp[28]); continue; }
+        try_buf(st, 7, r, (uint64_t)x + (8ull << 40), "crypted-roundtrip"); r->cases--;
+        r->cls[8]++;
+    }
+}
+
 int main(int argc, char **argv) {
     int a = common_args(argc, argv);
     ref_init(VERIF_ROOT); sec_mark_initial(); env_init(); inject(0);
@@ -126,6 +148,8 @@ int main(int argc, char **argv) {
     }
     memset(r, 0, sizeof *r); par_run(3L * 15 * 2048, work_rt, NULL, r);
     out_part("round trip: create -> store == reference layout -> load -> store", r, CLS, "every 11-bit word value in every position in 3 backgrounds");
+    memset(r, 0, sizeof *r); par_run(2048, work_crypted, NULL, r);
+    out_part("round trip of seeds after the password operation: 256 values of mask byte 18 x 4 secrets x {once, twice}", r, CLS, "");
     out_kv_int("images", NK);
     out_end();
     return 0;
